@@ -942,6 +942,7 @@ pub fn c09_check<const N: usize>(o: &Opts, rep: &mut Report) {
         if !o.mine(i) {
             continue;
         }
+        let mut views_ok: Option<bool> = None;
         for a in 0..=st.len {
             for b in a..=st.len {
                 for (k, rs) in shapes_of(a, b, st.len).into_iter().enumerate() {
@@ -968,7 +969,9 @@ pub fn c09_check<const N: usize>(o: &Opts, rep: &mut Report) {
                             record(rep, N, &st.recipe, &[], &act, None, p, "final-drop");
                         }
                         // the drained range really was removed *from the storage discipline*: C07's predicate on the result
-                        if tr.problems.is_empty() && s.len == 0 && k == 0 && matches!(act, Act::Drain(..)) {
+                        // (only where the views of the state *before* the drain are sound: a view bug that exists
+                        // without any drain is C07's business, not C09's)
+                        if tr.problems.is_empty() && s.len == 0 && k == 0 && matches!(act, Act::Drain(..)) && *views_ok.get_or_insert_with(|| c07_state::<N>(&st.recipe).is_empty()) {
                             let mut r2 = st.recipe.clone();
                             r2.acts.push(act);
                             for p in c07_state::<N>(&r2) {
